@@ -147,4 +147,168 @@ theorem transform_at_depth_sorted (dflt dflt' : ν) (a b : Nat) (g : Tree κ ν 
 
 end generic
 
+/-! ### tuple coordinates: the tuple / pair styles, unflatten ∘ flatten, swap -/
+
+section tuples
+variable {α : Type} [LT α] [DecidableRel (α := α) (· < ·)] [DecidableEq α] [StrictTotal α]
+variable {ν : Type} [DecidableEq ν]
+
+/-- Python's tuple order splits lexicographically into (first component, rest) -/
+theorem lexSplit_coord : LexSplit (κ := List α) (fun c => c.take 1) (fun c => c.drop 1) :=
+  lexSplit_list
+
+/-- **The tuple and pair styles never collide**: on every well-formed tree whose ranks hold
+    coordinates of uniform arity (`UpperAr`; arity 1 = integer coordinates) the hypothesis of
+    `flatten_content` holds, for any number of levels and any payload depth. -/
+theorem flatten_tuple_mono (dflt : ν) (r l : Nat) (ar : List Nat) (f : Tree (List α) ν (r + 2 + l))
+    (hw : WF (r + 2 + l) f) (har : UpperAr r l ar f) :
+    monoLvB (tupleComb (α := α)) dflt r l f = true :=
+  (monoLvB_iff _ dflt r l f).2 (monoLv_tuple dflt r l ar f hw har)
+
+/-- **Unflatten inverts flatten** (tuple / pair style, any number of levels, any payload depth):
+    for a well-formed non-empty tree with integer coordinates on the flattened ranks,
+    unflattening the flattened fiber succeeds, is well-formed and has the original's content
+    (explicit defaults and empty sub-fibers of the flattened ranks are not re-created). -/
+theorem unflatten_flatten (dflt : ν) (r l : Nat) (f : Tree (List α) ν (r + 2 + l))
+    (hw : WF (r + 2 + l) f) (har : UpperAr r l (List.replicate (l + 1) 1) f)
+    (hne : isEmpty dflt (r + 2 + l) f = false) :
+    ∃ g, unflatLv (fun c => c.take 1) (fun c => c.drop 1) r l (flatLv (tupleComb (α := α)) dflt r l f) = some g ∧
+      WF (r + 2 + l) g ∧ content dflt (r + 2 + l) g = content dflt (r + 2 + l) f := by
+  have hm := monoLv_tuple dflt r l _ f hw har
+  have hwf := flatLv_wf (tupleComb (α := α)) dflt r l f hw hm
+  have hc := content_flatLv (tupleComb (α := α)) dflt r l f
+  have hne' : (show List (List α × Tree (List α) ν r) from flatLv (tupleComb (α := α)) dflt r l f) ≠ [] := by
+    intro h
+    have : content dflt (r + 1) (flatLv (tupleComb (α := α)) dflt r l f) = [] := by
+      show List.flatMap _ (show List (List α × Tree (List α) ν r) from flatLv tupleComb dflt r l f) = []
+      rw [h]; rfl
+    rw [hc, List.map_eq_nil_iff] at this
+    rw [(isEmpty_iff_content dflt _ f).2 this] at hne
+    cases hne
+  obtain ⟨g, hg, hgw, hgc⟩ := unflatLv_spec dflt _ _ (lexSplit_list (α := α)) r l _ hne' hwf
+  refine ⟨g, hg, hgw, ?_⟩
+  rw [hgc, hc, List.map_map]
+  conv => rhs; rw [← List.map_id (content dflt (r + 2 + l) f)]
+  apply List.map_congr_left
+  intro pv hpv
+  obtain ⟨p, v⟩ := pv
+  have hl : p.length = r + 2 + l := content_point_length dflt _ f (p, v) hpv
+  have hone : ∀ c ∈ p.take (l + 1), c.length = 1 := fun c hc =>
+    List.eq_of_mem_replicate (upperAr_points dflt r l _ f har (p, v) hpv c hc)
+  show (splitTop _ _ l (joinTop tupleComb l p), v) = (p, v)
+  rw [(splitTop_joinTop l p (by omega) hone).1]
+
+/-- the top two ranks hold integer coordinates -/
+def Int2 (r : Nat) (f : Tree (List α) ν (r + 2)) : Prop :=
+  ∀ e ∈ (show List (List α × Tree (List α) ν (r + 1)) from f), e.1.length = 1 ∧
+    ∀ x ∈ (show List (List α × Tree (List α) ν r) from e.2), x.1.length = 1
+
+/-- **Swap is the adjacent swizzle.**  `Fiber.swapRanks` (flatten with style pair, sort on the
+    reversed pair, unflatten) on a well-formed non-empty fiber with integer coordinates on its top
+    two ranks succeeds, is well-formed, and its content is the original's with the first two
+    coordinates of every point exchanged — the specification of `swizzle` for the permutation
+    `[1, 0]`; payloads at any depth `r` below. -/
+theorem swap_is_adjacent_swizzle (dflt : ν) (r : Nat) (f : Tree (List α) ν (r + 2))
+    (hw : WF (r + 2) f) (hint : Int2 r f) (hne : isEmpty dflt (r + 2) f = false) :
+    ∃ g, swapFiber (fun a b => a ++ b) List.reverse (fun c => c.take 1) (fun c => c.drop 1) dflt r f = some g ∧
+      WF (r + 2) g ∧ content dflt (r + 2) g = swizzleSpec [1, 0] (content dflt (r + 2) f) := by
+  have hmono : Sorted (show List (List α × Tree (List α) ν r) from flat2 (fun a b => a ++ b) dflt r f) :=
+    monoLv_tuple dflt r 0 [1] f hw (fun e he => (hint e he).1)
+  obtain ⟨g, hg, hgw, hgc⟩ := swapFiber_spec (fun a b => a ++ b) List.reverse _ _ (lexSplit_list (α := α))
+    dflt r f hw hmono hne (fun a _ b _ h => List.reverse_inj.1 h)
+  refine ⟨g, hg, hgw, ?_⟩
+  unfold swizzleSpec
+  apply content_eq_isort_of_perm hgw
+  refine hgc.trans (List.Perm.of_eq ?_)
+  apply List.map_congr_left
+  intro pv hpv
+  -- the point is `[a] :: [b] :: rest`
+  have hpv' : pv ∈ (show List (List α × Tree (List α) ν (r + 1)) from f).flatMap
+      (fun e => pre e.1 (content dflt (r + 1) e.2)) := hpv
+  obtain ⟨e, he, hpe⟩ := List.mem_flatMap.1 hpv'
+  obtain ⟨y, hy, rfl⟩ := mem_pre hpe
+  have hy' : y ∈ (show List (List α × Tree (List α) ν r) from e.2).flatMap
+      (fun x => pre x.1 (content dflt r x.2)) := hy
+  obtain ⟨x, hx, hyx⟩ := List.mem_flatMap.1 hy'
+  obtain ⟨w, _, rfl⟩ := mem_pre hyx
+  have h1 := (hint e he).1
+  have h2 := (hint e he).2 x hx
+  match e.1, x.1, h1, h2 with
+  | [a], [b], _, _ => rfl
+
+end tuples
+
+/-! ### flattening a split with absolute coordinates restores the original -/
+
+section split
+variable {ν : Type} [DecidableEq ν]
+
+/-- **Flattening a uniform split with absolute coordinates restores the original.**  For every
+    positive step, every well-formed fiber (payloads at any depth, explicit defaults and empty
+    sub-fibers allowed) whose presented elements lie in the active range: the split of C08
+    (`splitFiber`, halo 0, absolute coordinates) succeeds, and merging its two ranks with the
+    absolute style — `flattenRanks(coord_style="absolute")`, raising merge function — returns
+    exactly the presented elements of the original, hence the original's content. -/
+theorem flattenAbs_split_id (step as ae : Int) (hstep : 0 < step) (hact : as < ae) (dflt : ν) (r : Nat)
+    (f : Tree Int ν (r + 1)) (hw : WF (r + 1) f)
+    (hin : ∀ e ∈ present dflt r f, as ≤ e.1 ∧ e.1 < ae) :
+    ∃ u, splitFiber { op := .uniform step, act := some (as, ae) } dflt r f = some u ∧
+      merge2 (fun _ c => c) mfRaise dflt dflt r u = some (show Tree Int ν (r + 1) from present dflt r f) ∧
+      content dflt (r + 1) (show Tree Int ν (r + 1) from present dflt r f) = content dflt (r + 1) f := by
+  have hps : Sorted (present dflt r f) := present_sorted hw.1
+  have hsplit : splitFiberParts { op := .uniform step, act := some (as, ae) } dflt r f =
+      some (uSpec step 0 0 as ae false (present dflt r f)) :=
+    splitUniformIter_eq step 0 0 as ae hstep hact (Int.le_refl 0) (Int.le_refl 0) false _ hps
+  have hloss := uSpec_lossless step as ae hstep (present dflt r f) hps
+  have hfilt : (present dflt r f).filter (fun e => decide (as ≤ e.1) && decide (e.1 < ae)) =
+      present dflt r f := by
+    rw [List.filter_eq_self]
+    intro e he
+    simp [(hin e he).1, (hin e he).2]
+  rw [hfilt] at hloss
+  refine ⟨partsTree r (uSpec step 0 0 as ae false (present dflt r f)), ?_, ?_, ?_⟩
+  · unfold splitFiber; rw [hsplit]; rfl
+  · -- the flattening of the parts is the concatenation of their (presented) elements
+    have hflat : (show List (Int × Tree Int ν r) from
+        flat2 (fun _ c => c) dflt r (partsTree r (uSpec step 0 0 as ae false (present dflt r f)))) =
+        present dflt r f := by
+      refine Eq.trans ?_ hloss
+      unfold flat2 pairsOf partsTree
+      show List.flatMap _ (List.map _ (List.map _ _)) = _
+      rw [List.map_map, List.flatMap_map]
+      have fm_congr : ∀ (L : List (Part (Tree Int ν r))) (F G : Part (Tree Int ν r) → List (Int × Tree Int ν r)),
+          (∀ p ∈ L, F p = G p) → L.flatMap F = L.flatMap G := by
+        intro L F G h
+        induction L with
+        | nil => rfl
+        | cons p L ih =>
+          rw [List.flatMap_cons, List.flatMap_cons, h p (List.mem_cons_self ..),
+            ih (fun q hq => h q (List.mem_cons_of_mem _ hq))]
+      apply fm_congr
+      intro p hp
+      show List.map _ (present dflt r (show Tree Int ν (r + 1) from p.elems)) = p.elems
+      have hall : ∀ x ∈ p.elems, isEmpty dflt r x.2 = false := by
+        intro x hx
+        have : x ∈ present dflt r f := by
+          rw [← hloss]; exact List.mem_flatMap.2 ⟨p, hp, hx⟩
+        have := (List.mem_filter.1 this).2
+        simpa using this
+      have : present dflt r (show Tree Int ν (r + 1) from p.elems) = p.elems := by
+        unfold present
+        rw [List.filter_eq_self]
+        intro x hx
+        simp [hall x hx]
+      rw [this]
+      conv => rhs; rw [← List.map_id p.elems]
+      apply List.map_congr_left
+      intro x _; rfl
+    unfold merge2
+    rw [merge2T_sorted (fun _ c => c) mfRaise dflt dflt r _ (by rw [hflat]; exact hps)]
+    show some (untag (tagWith dflt _)) = _
+    rw [untag_tagWith, hflat]
+    rfl
+  · exact (content_present dflt r f).symm ▸ rfl
+
+end split
+
 end Ft
